@@ -11,7 +11,7 @@ BASELINE_OFF = ("cd /repo && export GOFLAGS=-mod=mod GOPROXY=off && "
 CLAIMED = {
     "C18": dict(
         category="exploration",
-        text="Bounded-exhaustive enumeration on the real codecs: the full product of a 15-string adversarial alphabet over every tuple field (subject id and subject set) and all 16 query shapes through JSON, URL-query (wire form) and protobuf (wire form) and back; every string of length <= 7 (thorough 9) over {a : # @ ( )} through FromString/String/FromString; the CLI line reader on string-domain tuples between comments and blank lines. Pure functions, so exhaustive small-scope enumeration is the right level.",
+        text="Bounded-exhaustive enumeration on the real codecs: the full product of a 15-string adversarial alphabet over every tuple field (subject id and subject set) and all 16 query shapes through JSON, URL-query (wire form) and protobuf (wire form) and back; every string of length <= 7 (thorough 9) over {a : # @ ( )} through FromString/String/FromString; the CLI line reader on string-domain tuples between comments and blank lines. Pure functions, so exhaustive small-scope enumeration is the right level. Call-order pairs: String / ToURLQuery / ToProto / json.Marshal / FromString of y right after the call for x (degenerate values included; single OS thread, GC off). The parse command under every answer of its reader: I/O error after every prefix, short reads (1..8 bytes), lines of 4 KiB..1 MiB.",
         note="Trusts encoding/json, net/url and google.golang.org/protobuf; string-form domain = fields without any of : # @ ( ); bounds: alphabet and string length.",
         technique="bounded-exhaustive input enumeration against round-trip oracles (explicit enumeration, no sampling)",
         design_ref="§4 C18"),
@@ -19,14 +19,14 @@ CLAIMED = {
 
 CLAIMED["C15"] = dict(
     category="model_checking", engine="vsched",
-    text="Stateless model checking of the real check engine: tools/vinstr rewrites every go/chan/select/close/sync/errgroup/context.WithCancel in internal/check, checkgroup, x/graph into scheduler calls (generated overlay, /repo untouched); a cooperative scheduler owns every interleaving. For every scenario of a catalogue (all permission expressions with <=2 leaves over includes/traverse(recursive) x 7 tuple graphs incl. subject-set cycles, parent cycles, duplicates) it explores ALL schedules up to deviation bound 1 (thorough: wider leaf alphabet + bound 2) with a canceller thread whose cancel() lands at every scheduling point and storage that hangs after the cancel, plus every failing storage-call position x {transient, persistent}. Oracle per execution: the caller returns (no deadlock / step horizon), no panic, and at quiescence after context release zero goroutines remain.",
+    text="Stateless model checking of the real check engine: tools/vinstr rewrites every go/chan/select/close/sync/errgroup/context.WithCancel in internal/check, checkgroup, x/graph into scheduler calls (generated overlay, /repo untouched); a cooperative scheduler owns every interleaving. For every scenario of a catalogue (all permission expressions with <=2 leaves over includes/traverse(recursive) x 7 tuple graphs incl. subject-set cycles, parent cycles, duplicates) it explores ALL schedules up to deviation bound 1 (thorough: wider leaf alphabet + bound 2) with a canceller thread whose cancel() lands at every scheduling point and storage that hangs after the cancel, plus every failing storage-call position x {transient, persistent}. Oracle per execution: the caller returns (no deadlock / step horizon), no panic, and at quiescence after context release zero goroutines remain. Added phases: cancelled-then-again (the same check re-issued with a fresh context after a cancelled one returned; both canonical select picks; quick: every sixth light scenario) and listings paged one row at a time with a fault at every position (traverse scenarios). sync.Pool is modelled deterministically (LIFO, emptied between executions); singleflight / semaphore are modelled.",
     note="Visible-operation granularity, sequentially consistent; in-memory store stands in for SQL (bound by C01's conformance comparison); global depth 5 in these scenarios; data races are C14's separate -race pass.",
     technique="stateless model checking: deviation-bounded exhaustive DFS over schedules of the instrumented implementation + exhaustive cancellation/fault-position enumeration",
     design_ref="§3.2-3.4, §4 C15")
 
 CLAIMED["C01"] = dict(
     category="model_checking", engine="vsched",
-    text="The real check engine (instrumented by tools/vinstr, run under the cooperative scheduler) is compared with an independent reference semantics (h/refsem: least fixpoint stratified over the SCCs of the atom dependency graph) on (A) every configuration with <=2 leaves over includes/traverse(recursive)/permits x every query-connected tuple set of <=3 tuples over 2 objects incl. subject sets, empty relations, duplicates x 3 queries x row orders, default mode, and typed OPL-rendered configurations in strict mode; (B) the same engine over the real SQL persister/traverser with row order forced through shard_id, cross-checked call by call count and answer against the in-memory store used for exploration; (C) ALL schedules up to deviation bound 1 (thorough 2) of ~700 scenarios that force the visited-set, cycle and short-circuit mechanisms - every outcome must equal the reference, so the answer is schedule independent within the bound. Cases the engine itself reports as cut by depth/width are excluded (C02).",
+    text="The real check engine (instrumented by tools/vinstr, run under the cooperative scheduler) is compared with an independent reference semantics (h/refsem: least fixpoint stratified over the SCCs of the atom dependency graph) on (A) every configuration with <=2 leaves over includes/traverse(recursive)/permits x every query-connected tuple set of <=3 tuples over 2 objects incl. subject sets, empty relations, duplicates x 3 queries x row orders, default mode, and typed OPL-rendered configurations in strict mode; (B) the same engine over the real SQL persister/traverser with row order forced through shard_id, cross-checked call by call count and answer against the in-memory store used for exploration; (C) ALL schedules up to deviation bound 1 (thorough 2) of ~700 scenarios that force the visited-set, cycle and short-circuit mechanisms - every outcome must equal the reference, so the answer is schedule independent within the bound. Cases the engine itself reports as cut by depth/width are excluded (C02). Added families: wide nodes on the SQL traverser (N subject sets around one and two traverser pages of 1000 rows, the subject a member of the K-th for every K around the seams; thorough every K); operator chains as OPL text (every || / && tree over 3-4 relations with none or one negated leaf in minimal TypeScript parentheses x all assignments of direct tuples, end to end through the parser); input enumeration of traverse configurations also with listings paged one row at a time.",
     note="Reference semantics written from the docs (strict mode from config.schema.json); bounds: <=2 leaves, <=3 tuples (thorough: 5 leaf kinds, all row permutations, deeper), deviation bound; violations that disappear under the counterfactual build with path-local visited sets are attributed to recorded finding KF-C01-1.",
     technique="bounded-exhaustive input enumeration + deviation-bounded stateless schedule exploration of the instrumented implementation against a reference model",
     design_ref="§4 C01")
@@ -39,72 +39,72 @@ CLAIMED["C02"] = dict(
     design_ref="§4 C02")
 CLAIMED["C03"] = dict(
     category="fault_enumeration", engine="vsched",
-    text="For every scenario (all permission expressions with <=2 leaves x 7 tuple graphs) the fault-free check issues N storage calls; every position k=1..N x {transient, persistent} x {generic error, context.DeadlineExceeded} is injected at the storage interface of the instrumented engine, and the transient fault is additionally explored under every schedule with one deviation (failing call reordered against its siblings). Oracle: result is an error or the fault-free result of the same schedule; never allowed when fault-free denied; no result carries an error together with 'allowed' (also per BatchCheck entry).",
+    text="For every scenario (all permission expressions with <=2 leaves x 7 tuple graphs) the fault-free check issues N storage calls; every position k=1..N x {transient, persistent} x {generic error, context.DeadlineExceeded} is injected at the storage interface of the instrumented engine, and the transient fault is additionally explored under every schedule with one deviation (failing call reordered against its siblings). Oracle: result is an error or the fault-free result of the same schedule; never allowed when fault-free denied; no result carries an error together with 'allowed' (also per BatchCheck entry). Fault kinds: generic, deadline exceeded, cancelled query (context.Canceled while the request context is alive); the SQL statement-fault part covers all graphs and the includes-a / includes-b / traverse leaves.",
     note="Faults at the Manager/Traverser interface (in-memory store bound to SQL by C01 part B); SQL-statement-level faults are exercised in C05's harness for writes.",
     technique="exhaustive fault-position enumeration on the implementation under a controlled scheduler, differential against the fault-free run",
     design_ref="§4 C03")
 
 CLAIMED["C04"] = dict(
     category="model_checking", engine="enum",
-    text="Explicit-state breadth-first search over API histories on the real REST and gRPC handlers (in-process httptest / bufconn, sqlite-backed registry): alphabet of 56 operations (REST PUT/DELETE/PATCH, gRPC Transact/Delete, valid and invalid arguments), 3 roots (empty + 2 seeded stores), canonical state = multiset with multiplicity capped at 2, successors produced by replaying the shortest path on a truncated database, depth 3 quick / until the frontier empties (depth 7, 2187 states) thorough. After every transition: full listings on both transports + one query per query shape against the multiset reference model (h/refsem RefStore), accept/reject/no-effect oracles; on every new state the full 180-query sweep with two page sizes and a check/expand write-visibility panel.",
+    text="Explicit-state breadth-first search over API histories on the real REST and gRPC handlers (in-process httptest / bufconn, sqlite-backed registry): alphabet of 56 operations (REST PUT/DELETE/PATCH, gRPC Transact/Delete, valid and invalid arguments), 3 roots (empty + 2 seeded stores), canonical state = multiset with multiplicity capped at 2, successors produced by replaying the shortest path on a truncated database, depth 3 quick / until the frontier empties (depth 7, 2187 states) thorough. After every transition: full listings on both transports + one query per query shape against the multiset reference model (h/refsem RefStore), accept/reject/no-effect oracles; on every new state the full 180-query sweep with two page sizes and a check/expand write-visibility panel. A bystander network with two relationships (one spelled like a tuple of the alphabet) shares the database during the whole search: never listed, never removed.",
     note="SQLite only; state abstraction caps multiplicities at 2 (delete removes all copies, so deeper multiplicities behave identically); check/expand panel is the direct-tuple version.",
     technique="explicit-state BFS over operation histories with canonical-state de-duplication, real handlers as the transition function, reference-model oracle",
     design_ref="§4 C04")
 CLAIMED["C06"] = dict(
     category="model_checking", engine="enum",
-    text="Two networks A and B on one database through the production contextualizer seam; B is seeded with a small graph that shares object/subject strings with A plus B-only strings. BFS over histories in A (C04's 56-operation alphabet incl. gRPC delete with an empty query) to depth 3 (thorough 5). After every transition B's observation vector (~105 list/check/expand requests over REST and gRPC) must be unchanged and no observation in A may contain a B-only string; a statement monitor on the SQL driver checks that every statement issued for A on keto_relation_tuples binds A's network id and never B's. The zero-UUID network is a third tenant (requests that carry uuid.Nil as network id must be scoped like any other); cross-network concurrent pairs: an operation in A is paused at every SQL statement boundary while B's observation vector is taken.",
+    text="Two networks A and B on one database through the production contextualizer seam; B is seeded with a small graph that shares object/subject strings with A plus B-only strings. BFS over histories in A (C04's 56-operation alphabet incl. gRPC delete with an empty query) to depth 3 (thorough 5). After every transition B's observation vector (~105 list/check/expand requests over REST and gRPC) must be unchanged and no observation in A may contain a B-only string; a statement monitor on the SQL driver checks that every statement issued for A on keto_relation_tuples binds A's network id and never B's. The zero-UUID network is a third tenant (requests that carry uuid.Nil as network id must be scoped like any other); cross-network concurrent pairs: an operation in A is paused at every SQL statement boundary while B's observation vector is taken. Id-level family: A and B use the SAME internal ids at the Manager / Traverser / engine interfaces (16-tuple universe, 38 Manager operations in A, BFS depth 2 quick / 3 thorough; B's vector = lists, exists, both traversals, engine checks, expand trees). UUID-shaped names in every spelling uuid.FromString accepts, both write orders: each network lists exactly the spelling it wrote.",
     note="SQLite only; keto_uuid_mappings has no nid column (ids are UUIDv5 of network id and string) so the monitor there checks that no statement binds B's nid or a UUIDv5(B, s).",
     technique="explicit-state BFS over histories in one tenant with an invariant on the other tenant's observables + SQL statement monitor",
     design_ref="§4 C06")
 CLAIMED["C07"] = dict(
     category="exploration", engine="enum",
-    text="Bounded-exhaustive pagination grid on the real handlers: page size {1,2,3} x 7 row counts around the page boundaries x 24 query shapes x duplicates; page size {0,100} x {99,100,101,201} rows; every 3-operation sequence of {none, insert below/above the cursor, delete a returned / a not yet returned other row} at the page boundaries with shard_ids placed by raw SQL; 10 malformed/odd token kinds; REST and gRPC. Oracle: concatenated pages = matching stable rows exactly once, |page| <= size, token empty iff last page, malformed token is a 4xx / InvalidArgument-class error. Storage-failure family: every SQL statement of one page fetch fails (generic error, sqlite LOCKED / BUSY, cancelled) - the answer is an error or the fault-free page, and continuing afterwards still yields every row once.",
+    text="Bounded-exhaustive pagination grid on the real handlers: page size {1,2,3} x 7 row counts around the page boundaries x 24 query shapes x duplicates; page size {0,100} x {99,100,101,201} rows; every 3-operation sequence of {none, insert below/above the cursor, delete a returned / a not yet returned other row} at the page boundaries with shard_ids placed by raw SQL; 10 malformed/odd token kinds; REST and gRPC. Oracle: concatenated pages = matching stable rows exactly once, |page| <= size, token empty iff last page, malformed token is a 4xx / InvalidArgument-class error. Storage-failure family: every SQL statement of one page fetch fails (generic error, sqlite LOCKED / BUSY, cancelled) - the answer is an error or the fault-free page, and continuing afterwards still yields every row once. Single-statement fault mode: one statement (every statement in turn) of a fetch of 150 rows / 300 names, whose name lookup spans several lookup pages.",
     note="Row order is forced through shard_id (the keyset key); SQLite only.",
     technique="bounded-exhaustive enumeration of (store size, page size, query shape, interleaved write history) against a multiset oracle",
     design_ref="§4 C07")
 CLAIMED["C17"] = dict(
     category="exploration", engine="enum",
-    text="115 read/syntax-API requests (check GET/POST both variants, batch check, expand, list, list namespaces, syntax check; valid and invalid; known and never-seen names; write routes sent to the read/syntax ports; REST and gRPC) x 3 stored states, every sequence of length 1 and 2 (thorough: length 3 over representatives). Oracle: byte-level dump of ALL tables before = after; monitor: the SQL driver wrapper sees no write statement during a read-API request. Non-vacuity: each write route changes the dump.",
+    text="115 read/syntax-API requests (check GET/POST both variants, batch check, expand, list, list namespaces, syntax check; valid and invalid; known and never-seen names; write routes sent to the read/syntax ports; REST and gRPC) x 3 stored states, every sequence of length 1 and 2 (thorough: length 3 over representatives). Oracle: byte-level dump of ALL tables before = after; monitor: the SQL driver wrapper sees no write statement during a read-API request. Non-vacuity: each write route changes the dump. 'After a write' states: 2 base states x 8 write requests (successful, failing, name-mapping-only) followed by every single read request.",
     note="SQLite only; REST batch check with a null element is exercised in C13's subprocess workers (it kills the process).",
     technique="bounded-exhaustive request-sequence enumeration with a whole-database dump invariant and an SQL statement monitor",
     design_ref="§4 C17")
 
 CLAIMED["C14"] = dict(
     category="model_checking", engine="vsched",
-    text="Schedule exploration of request PAIRS on one instrumented engine over a fixed store: every multiset of 2 requests from {check x3 (shared sub-graph, cyclic data), batch check, expand} under two configurations (a && !b, b || traverse), all interleavings up to deviation bound 1 (thorough 2) with storage calls as scheduling points; each request's answer must lie in the outcome set the same request produces alone over all schedules to the same bound. Complement: the same kinds of requests free-running under the Go race detector against the sqlite registry and its REST/gRPC servers, concurrent first requests on fresh registries and mixed with writes; every distinct race report is a violation keyed by the top keto frames of both accesses.",
+    text="Schedule exploration of request PAIRS on one instrumented engine over a fixed store: every multiset of 2 requests from {check x3 (shared sub-graph, cyclic data), batch check, expand} under two configurations (a && !b, b || traverse), all interleavings up to deviation bound 1 (thorough 2) with storage calls as scheduling points; each request's answer must lie in the outcome set the same request produces alone over all schedules to the same bound. Complement: the same kinds of requests free-running under the Go race detector against the sqlite registry and its REST/gRPC servers, concurrent first requests on fresh registries and mixed with writes; every distinct race report is a violation keyed by the top keto frames of both accesses. Built as three passes: (1) alone sets, every exploration split across all workers; (2) pairs incl. a depth-variant of the same tuple through CheckRelationTuple and CheckIsMember, cancel phases under both canonical select picks, a pagination phase through one shared ManagerWrapper; (3) API pass: 16 read requests (list pages with different tokens / sizes, checks with different depths, batch, expand; REST and gRPC) of one network, every ordered pair, the first paused inside the SQL driver before each of its statements.",
     note="The -race pass is not exhaustive (stated in evidence); cooperative scheduling cannot see data races; bounds: 2 concurrent requests, deviation bound.",
     technique="deviation-bounded stateless schedule exploration of concurrent requests on the instrumented implementation (differential against solo runs) + free-running race-detector pass",
     design_ref="§4 C14")
 
 CLAIMED["C19"] = dict(
     category="model_checking", engine="vsched",
-    text="keto's real oplConfigWatcher, NamespaceWatcher (JSON/YAML/TOML) and event loop, instrumented by tools/vinstr (profile config: sync/RWMutex with Go's writer preference, select, channels) run under the cooperative scheduler. A dispatcher thread feeds EVERY history of length <=3 (thorough 4) over {change f1 to V1/V2/syntactically bad/type-incorrect, remove f1, change f2 to W1/bad}; a reader thread takes two samples (Namespaces + GetNamespaceByName) and, for OPL, a reload thread calls ShouldReload; ALL interleavings up to deviation bound 2 are explored. Oracle per sample and per file: the visible namespaces of the file are exactly one valid version of it dispatched so far (never a subset, a mix or an invalid one); at quiescence every file shows its last valid version; no deadlock.",
+    text="keto's real oplConfigWatcher, NamespaceWatcher (JSON/YAML/TOML) and event loop, instrumented by tools/vinstr (profile config: sync/RWMutex with Go's writer preference, select, channels) run under the cooperative scheduler. A dispatcher thread feeds EVERY history of length <=3 (thorough 4) over {change f1 to V1/V2/syntactically bad/type-incorrect, remove f1, change f2 to W1/bad}; a reader thread takes two samples (Namespaces + GetNamespaceByName) and, for OPL, a reload thread calls ShouldReload; ALL interleavings up to deviation bound 2 are explored. Oracle per sample and per file: the visible namespaces of the file are exactly one valid version of it dispatched so far (never a subset, a mix or an invalid one); at quiescence every file shows its last valid version; no deadlock. Families over the KINDS of invalid content per format (cut off, left-over bytes, wrong value / field type, duplicate key, unterminated comment / string; histories <= 3, bound 1); a lookup-vs-set scenario on the real config.Config object (bound 2): the last namespaces value set is what is served afterwards.",
     note="File-system notification (watcherx/fsnotify) is replaced by the dispatcher; for OPL targets 'eventually' is judged only when the last version of every file is valid (one bad file blocks all updates by design).",
     technique="stateless model checking: exhaustive event-history enumeration x deviation-bounded schedule exploration of the instrumented implementation",
     design_ref="§4 C19")
 
 CLAIMED["C08"] = dict(
     category="exploration", engine="enum",
-    text="Bounded-exhaustive transport agreement on the real handlers (REST GET/POST on the status-mirroring and the openapi route, REST batch, gRPC Check via tuple field and flat fields, gRPC BatchCheck): 3 seeded stores x 2 configurations (rewrite-free and OR-only, so the free-running engine is deterministic) x 639 query tuples (subject id / subject set, known and unknown namespaces, adversarial strings) x 7 max-depth values; every batch sequence of length <=3 over an 8-letter alphabet plus batches at the configured maximum and maximum+1. Oracle: each transport's decision equals the engine's CheckIsMember on the mapped tuple; mirror route 200 iff allowed, 403 iff denied; unknown namespace never allowed; batch order/length preserved, batch(B)[i] = single(B[i]), an invalid entry changes no other entry; oversize and non-numeric depth are 4xx. Look-alike batch letters (a subject id spelled like a subject set, names containing the separators) so that two different tuples with the same human-readable rendering sit in one batch with different decisions; request-order family: every ordered pair of single checks on one connection / one process (GOMAXPROCS 1) - the second answer must not depend on the first request.",
+    text="Bounded-exhaustive transport agreement on the real handlers (REST GET/POST on the status-mirroring and the openapi route, REST batch, gRPC Check via tuple field and flat fields, gRPC BatchCheck): 3 seeded stores x 2 configurations (rewrite-free and OR-only, so the free-running engine is deterministic) x 639 query tuples (subject id / subject set, known and unknown namespaces, adversarial strings) x 7 max-depth values; every batch sequence of length <=3 over an 8-letter alphabet plus batches at the configured maximum and maximum+1. Oracle: each transport's decision equals the engine's CheckIsMember on the mapped tuple; mirror route 200 iff allowed, 403 iff denied; unknown namespace never allowed; batch order/length preserved, batch(B)[i] = single(B[i]), an invalid entry changes no other entry; oversize and non-numeric depth are 4xx. Look-alike batch letters (a subject id spelled like a subject set, names containing the separators) so that two different tuples with the same human-readable rendering sit in one batch with different decisions; request-order family: every ordered pair of single checks on one connection / one process (GOMAXPROCS 1) - the second answer must not depend on the first request. The chain store under a global depth limit that binds (limit 2 < chain 3); max-depth values outside int32 on REST; batch entries under a storage failure at every SQL statement (generic / cancelled): an entry carries an error or is what it is without the failure.",
     note="Configurations restricted to those whose engine outcome is schedule independent (C01 shows singleton outcome sets for them); SQLite only.",
     technique="bounded-exhaustive request enumeration with a differential oracle between transports and the engine",
     design_ref="§4 C08")
 CLAIMED["C13"] = dict(
     category="exploration", engine="enum",
-    text="Every REST route of the read, write and syntax routers (every method on every path, odd paths) and every gRPC method: the full product of core per-field choices {absent, null, empty, valid, wrong JSON type, negative, huge, oversized, array with null element, duplicate keys} plus every single-field (thorough: every pair) deviation, incl. every combination of absent optional protobuf sub-messages - 58k requests quick / 83k thorough - executed in worker subprocesses with a request journal so that a process death is attributed to the request in flight. Oracle: no handler panic, the worker does not die, status < 500 and gRPC code not Internal/Unknown (no storage fault injected), and a rejected request leaves the full table dump unchanged. Syntax-API families include cyclic SubjectSet types, self-referential permissions and forward references.",
+    text="Every REST route of the read, write and syntax routers (every method on every path, odd paths) and every gRPC method: the full product of core per-field choices {absent, null, empty, valid, wrong JSON type, negative, huge, oversized, array with null element, duplicate keys} plus every single-field (thorough: every pair) deviation, incl. every combination of absent optional protobuf sub-messages - 58k requests quick / 83k thorough - executed in worker subprocesses with a request journal so that a process death is attributed to the request in flight. Oracle: no handler panic, the worker does not die, status < 500 and gRPC code not Internal/Unknown (no storage fault injected), and a rejected request leaves the full table dump unchanged. Syntax-API families include cyclic SubjectSet types, self-referential permissions and forward references. Data-shaped family: well-formed check / batch / expand / list requests over stored nodes of 1001 and 2001 subject sets.",
     note="SQLite only; RLIMIT_AS 4 GiB per worker; 7 gigabyte-sized bodies skipped in thorough.",
     technique="bounded-exhaustive request-shape enumeration in journalled worker subprocesses with crash/panic/status/state oracles",
     design_ref="§4 C13")
 CLAIMED["C16"] = dict(
     category="exploration", engine="enum",
-    text="182 adversarial strings (empty, separators, escapes, NFC/NFD, RTL, emoji, 4-byte runes, 10 kB, case / trailing-space / ZWJ twins): all 33k ordered pairs for injectivity of the string<->UUID mapping; batches of sizes around 1, 50, 100, 150, 200, 250 (thorough 1..260, 301, 400, 401) x 5 duplicate patterns x {subject id, subject set, mixed} through Mapper.FromTuple->ToTuple, FromQuery->ToQuery (16 shapes) and ToTree, position-wise; end-to-end write -> list / expand / check over REST and gRPC; the reverse-lookup paging loop with explicit page sizes 1..5 x 0..12 ids and 99..201 ids at page sizes 7/50/99/100/101 (through an added, non-replacing method in the persister package). Write-chunk boundaries: batches of 14999 / 15000 / 15001 / 30001 never-seen names (and 29999..30002 with every name twice; tuple batches of 2999..3001 and 7499..7501 tuples) through the same round trips - the insert of new mappings is chunked by 15000 rows.",
+    text="182 adversarial strings (empty, separators, escapes, NFC/NFD, RTL, emoji, 4-byte runes, 10 kB, case / trailing-space / ZWJ twins): all 33k ordered pairs for injectivity of the string<->UUID mapping; batches of sizes around 1, 50, 100, 150, 200, 250 (thorough 1..260, 301, 400, 401) x 5 duplicate patterns x {subject id, subject set, mixed} through Mapper.FromTuple->ToTuple, FromQuery->ToQuery (16 shapes) and ToTree, position-wise; end-to-end write -> list / expand / check over REST and gRPC; the reverse-lookup paging loop with explicit page sizes 1..5 x 0..12 ids and 99..201 ids at page sizes 7/50/99/100/101 (through an added, non-replacing method in the persister package). Write-chunk boundaries: batches of 14999 / 15000 / 15001 / 30001 never-seen names (and 29999..30002 with every name twice; tuple batches of 2999..3001 and 7499..7501 tuples) through the same round trips - the insert of new mappings is chunked by 15000 rows. One failing statement (every statement in turn) in reverse lookups of 150 / 250 ids (several lookup pages): an error or the right names.",
     note="Which id falls on the page boundary at the production page size depends on Go map iteration order and is not controlled (stated in evidence); UUIDv5 collision freedom is taken as given.",
     technique="bounded-exhaustive enumeration of names and batch shapes against round-trip / injectivity oracles",
     design_ref="§4 C16")
 
 CLAIMED["C10"] = dict(
     category="exploration", engine="enum",
-    text="Every boolean expression tree with <=3 binary operators (thorough 4), every placement of `!` (<=2 per path), atoms realised by the four leaf kinds, each rendered in 4 parenthesis layouts (mixed, full, TypeScript-minimal, redundant), plus every `(` / `!(` wrapper string of length <=9: schema.Parse must accept it and the truth table of the parsed rewrite must equal the truth table an independent precedence-climbing evaluator (TypeScript precedence) computes from the rendered token string. Independently the full product of 12 spelling dimensions x 6 layouts on two documents and a comment in every token gap must parse to the source AST. Declaration-order variants: every permutation of namespace declarations and of relation/permission members for the two documents (forward references).",
+    text="Every boolean expression tree with <=3 binary operators (thorough 4), every placement of `!` (<=2 per path), atoms realised by the four leaf kinds, each rendered in 4 parenthesis layouts (mixed, full, TypeScript-minimal, redundant), plus every `(` / `!(` wrapper string of length <=9: schema.Parse must accept it and the truth table of the parsed rewrite must equal the truth table an independent precedence-climbing evaluator (TypeScript precedence) computes from the rendered token string. Independently the full product of 12 spelling dimensions x 6 layouts on two documents and a comment in every token gap must parse to the source AST. Declaration-order variants: every permutation of namespace declarations and of relation/permission members for the two documents (forward references). 20 comment shapes (every form a comment's ends can take) in every token gap; result-lifetime pairs: the namespaces returned for document a are re-read after document b was parsed (every ordered pair).",
     note="Only spellings the documented grammar/examples allow are demanded (others are listed in evidence as not demanded); end-to-end agreement of engine decisions with the parsed rewrite is C01's part (strict-mode configurations reach keto as OPL text).",
     technique="bounded-exhaustive program enumeration with a truth-table oracle from an independent evaluator (translation validation of the OPL front end on a finite grammar)",
     design_ref="§4 C10")
@@ -116,7 +116,7 @@ CLAIMED["C11"] = dict(
     design_ref="§4 C11")
 CLAIMED["C12"] = dict(
     category="exploration", engine="enum",
-    text="All byte strings of length <=2 and all strings of length <=4 (thorough 5) over a 25-byte alphabet (every delimiter, quotes, comment starts, newline, letter, digit, non-ASCII and invalid UTF-8) in 5 parser contexts; all token sequences of length <=4 (5) over 41 spellings x 3 separators; the complete single-edit neighbourhood of the corpus documents; 28 geometric families up to 2^14 (2^16). Oracle: no panic, terminates (step-count watchdog), errors or well-formed namespaces, every error position inside the input with start <= end, Error/ToAPI/ToProto do not panic, REST and gRPC syntax endpoints agree with Parse; LINEAR WORK measured without wall-clock: tools/vticks inserts a tick at every function entry and loop body of package schema (generated overlay); ticks <= 100*|s|+500 on every input and doubling ratio <= 2.5 on every family. Runs of 1..64 adjacent one-rune tokens; a Parse that is permanently blocked (goroutine parked, no tick progress) is reported as non-termination; error-lifetime pairs: the errors of Parse(a) are rendered after Parse(b) ran on the same goroutine.",
+    text="All byte strings of length <=2 and all strings of length <=4 (thorough 5) over a 25-byte alphabet (every delimiter, quotes, comment starts, newline, letter, digit, non-ASCII and invalid UTF-8) in 5 parser contexts; all token sequences of length <=4 (5) over 41 spellings x 3 separators; the complete single-edit neighbourhood of the corpus documents; 28 geometric families up to 2^14 (2^16). Oracle: no panic, terminates (step-count watchdog), errors or well-formed namespaces, every error position inside the input with start <= end, Error/ToAPI/ToProto do not panic, REST and gRPC syntax endpoints agree with Parse; LINEAR WORK measured without wall-clock: tools/vticks inserts a tick at every function entry and loop body of package schema (generated overlay); ticks <= 100*|s|+500 on every input and doubling ratio <= 2.5 on every family. Runs of 1..64 adjacent one-rune tokens; a Parse that is permanently blocked (goroutine parked, no tick progress) is reported as non-termination; error-lifetime pairs: the errors of Parse(a) are rendered after Parse(b) ran on the same goroutine. A fatal error inside Parse is a violation too: inputs are journalled in a shared mapping before each Parse, the check runs below a supervisor, a process that dies inside Parse is reported with its input.",
     note="Hidden library costs inside a single call (e.g. fmt) are not counted; rendering n errors through the endpoints is quadratic in n (observed, not judged: the statement bounds parsing).",
     technique="bounded-exhaustive input enumeration with deterministic step counting (instrumented work counter) as the complexity oracle",
     design_ref="§4 C12")
@@ -129,7 +129,7 @@ CLAIMED["C05"] = dict(
     design_ref="§4 C05")
 CLAIMED["C09"] = dict(
     category="exploration", engine="enum",
-    text="Every root-connected tuple multiset of <=4 tuples (thorough 5: 48534 multisets) over 4 objects, 2 relations, 2 users up to renaming - chains, diamonds, cycles, self-loops, duplicates - in ALL sibling row orders (shard_id forced), plus fan-out families with 99/100/101/201 children, x 11 request/global depth combinations, through the expand engine, REST and gRPC. Oracles against an independent reachability model (h/refsem ExpandGraph): every edge is a stored tuple, a subject set is an inner node at most once, height <= effective depth, statement count within a stated bound (termination on cycles, step-count horizon), leaves subset of reach, leaves superset of everything within depth (weaker reading), and with depth not binding the subject-id leaves equal the subjects the check API allows. Statement-fault pass: every SQL statement of an expansion fails once - the answer is an error or the fault-free tree, never a silently smaller tree.",
+    text="Every root-connected tuple multiset of <=4 tuples (thorough 5: 48534 multisets) over 4 objects, 2 relations, 2 users up to renaming - chains, diamonds, cycles, self-loops, duplicates - in ALL sibling row orders (shard_id forced), plus fan-out families with 99/100/101/201 children, x 11 request/global depth combinations, through the expand engine, REST and gRPC. Oracles against an independent reachability model (h/refsem ExpandGraph): every edge is a stored tuple, a subject set is an inner node at most once, height <= effective depth, statement count within a stated bound (termination on cycles, step-count horizon), leaves subset of reach, leaves superset of everything within depth (weaker reading), and with depth not binding the subject-id leaves equal the subjects the check API allows. Statement-fault pass: every SQL statement of an expansion fails once - the answer is an error or the fault-free tree, never a silently smaller tree. Two-namespace family (the same object name and relation in two namespaces; every root-connected set of <= 3 tuples, both row orders); run-time reconfiguration of limit.max_read_depth on one registry (7 sequences of limits x 4 request depths x 3 transports).",
     note="Rewrite-free namespaces; SQLite only; the row-order dependent incompleteness (recorded findings KF-C09-1/2) is matched by a structural signature computed from the counterexample.",
     technique="bounded-exhaustive enumeration of graphs x row orders x depths against a reference reachability model",
     design_ref="§4 C09")
